@@ -42,8 +42,8 @@ VTYPES_EXTRA = ["c64", "fortran", "readonly", "strided", "dia", "lil", "bsr", "c
 DESIG = ["indices", "eigvec-dense", "eigvec-sparse"]
 
 
-def base_values(base, k, seed, scale=None):
-    sup = {1: [[1], [2]], 2: [[1, 0], [0, 1], [1, 1]], 3: [[1, 0, 0], [0, 1, 0], [0, 0, 1]]}[k]
+def base_values(base, k, seed, scale=None, sup=None):
+    sup = sup or {1: [[1], [2]], 2: [[1, 0], [0, 1], [1, 1]], 3: [[1, 0, 0], [0, 1, 0], [0, 0, 1]]}[k]
     cfg = dict(BASES[base], k=k, support=sup, pattern="dense", repr="dense", vset=0)
     cfg["E"] = [[e, 0] for e in BASES[base]["E"]]
     values = lattice.gen_values(cfg, seed)
@@ -71,6 +71,13 @@ def cases(tier, seed):
                         if dg == "eigvec-sparse" and vt == "sympy":
                             continue
                         out.append(dict(kind="format", base=b, k=k, fmt=fmt, vtype=vt, desig=dg, seed=seed))
+        # Hamiltonians in which some parameter has no linear term (x**2 only; y**2 and x*y but no y)
+        for k_, sup_ in ((1, [[2]]), (1, [[2], [3]]), (2, [[1, 0], [0, 2]]), (2, [[1, 0], [1, 1], [0, 2]]), (2, [[2, 0], [1, 1]])):
+            for fmt in ("dict-monomials", "dict-tuples", "sympy-symbols", "scalar-series"):
+                for vt in ("dense", "sympy"):
+                    if fmt == "sympy-symbols" and vt != "sympy":
+                        continue
+                    out.append(dict(kind="format", base=b, k=k_, fmt=fmt, vtype=vt, desig="indices", seed=seed, sup=sup_))
         # the `symbols=` argument: perturbative symbols listed in reverse order (order indices swap), a bare Symbol
         out.append(dict(kind="format", base=b, k=2, fmt="sympy-symbols", vtype="sympy", desig="indices", seed=seed, symrev=True))
         out.append(dict(kind="format", base=b, k=2, fmt="sympy-symbols", vtype="sympy", desig="eigvec-dense", seed=seed, symrev=True))
@@ -280,7 +287,7 @@ def run_format(case):
     k = case["k"]
     total = 3 if k == 1 else 2
     tiny = 2.0**-30 if case.get("tiny") else None
-    cfg, values = base_values(case["base"], k, case["seed"], tiny)
+    cfg, values = base_values(case["base"], k, case["seed"], tiny, case.get("sup"))
     fmt, vt, dg = case["fmt"], case["vtype"], case["desig"]
     herm = cfg["hermitian"]
     N = sum(cfg["sizes"])
